@@ -22,7 +22,11 @@ T6 = ["<li>", "</li>", "<ul>", "</ul>", "<dd>", "<dt>", "<p>", "</p>", "<h1>", "
 T7 = ["<script>", "</script>", "<!--", "-->", "<style>", "</style>", "<xmp>", "<iframe>", "<noembed>", "<title>", "</title>",
       "<textarea>", "x", "<", "\x00", "&amp;", "</xmp>", "</iframe>", "<plaintext>", "</textarea>", " "]
 
-THEMES = {"T1": T1, "T2": T2, "T3": T3, "T4": T4, "T5": T5, "T6": T6, "T7": T7}
+T8 = ["<b>", "</b>", "<p>", "</p>", "x", "<figcaption>", "<main>", "<summary>", "<hgroup>", "<dialog>", "<details>", "<rb>", "<rtc>", "<rt>", "<rp>",
+      "<ruby>", "</ruby>", "<source>", "<track>", "<keygen>", "<isindex>", "<menuitem>", "<command>", "<image>", "<li>", "<div>", "</div>",
+      "<math>", "<mi>", "<mo>", "<svg>", "<desc>", "<a>", "</a>", "<head>", "<nav>", "<section>", "<center>", "<menu>"]
+
+THEMES = {"T8": T8, "T1": T1, "T2": T2, "T3": T3, "T4": T4, "T5": T5, "T6": T6, "T7": T7}
 _u = []
 for _t in (T1, T2, T3, T4, T5, T6, T7):
     for _l in _t:
